@@ -412,16 +412,29 @@ def hardwired_names(chk, F, rule="hardwired-names-exist"):
     from facts import hir_walk
     fn = F.find("rink_core", "loader::load::load_defs")
     h = F.hir_of(fn)
+    # the table is whatever `contains(name)` is asked of next to the write of registry.decomposition_units: a local set filled by
+    # repeated inserts, a local written as one literal list, or a named const table
+    tables = set()
+    for m in H.method_calls(h["body"], "contains"):
+        r = H.expr_str(m["recv"]).lstrip("&*( ").rstrip(") ")
+        if r and "." not in r and "(" not in r:
+            tables.add(r.split("::")[-1])
     lits = []
-    for m in H.method_calls(h["body"], "insert"):
-        if "decomposition_units" in H.expr_str(m["recv"]) and m["args"] and m["args"][0].get("k") == "Lit":
-            lits.append(m["args"][0]["lit"]["v"])
-    # ... or the set is written as one literal list (`let decomposition_units: BTreeSet<_> = ["newton", ..].into_iter().collect()`)
-    for k, st in [(k, st) for b in hir_walk(h["body"]) if b.get("k") == "Block" for k, st in H.stmts_of(b)]:
-        if k == "let" and st.get("pat", {}).get("name") == "decomposition_units" and st.get("init"):
-            for e in hir_walk(st["init"]):
-                if e.get("k") == "Lit" and e["lit"].get("lit") == "str" and e["lit"]["v"] not in lits:
-                    lits.append(e["lit"]["v"])
+    for tname in sorted(tables):
+        got = []
+        for m in H.method_calls(h["body"], "insert"):
+            if H.expr_str(m["recv"]).lstrip("&*( ").rstrip(") ") == tname and m["args"] and m["args"][0].get("k") == "Lit":
+                got.append(m["args"][0]["lit"]["v"])
+        for k, st in [(k, st) for b_ in hir_walk(h["body"]) if b_.get("k") == "Block" for k, st in H.stmts_of(b_)]:
+            if k == "let" and st.get("pat", {}).get("name") == tname and st.get("init"):
+                for e in hir_walk(st["init"]):
+                    if e.get("k") == "Lit" and e["lit"].get("lit") == "str" and e["lit"]["v"] not in got:
+                        got.append(e["lit"]["v"])
+        for v in (F.const_literals("rink_core", tname) or []):
+            if v not in got:
+                got.append(v)
+        if len(got) >= 5:
+            lits += [v for v in got if v not in lits]
     f = folder()
     bad = []
     for n in lits:
